@@ -16,11 +16,11 @@ TECHNIQUE = "metamorphic: E(mu2<-mu1)E(mu1<-mu0) vs E(mu2<-mu0) from three fresh
 RULE = (
     "Generated scale triples (mu0, mu1, mu2) with the intermediate point on the direct flavour path: inside one patch, "
     "across one matching scale (intermediate point before or after the matching), including legs that run down in scale "
-    "inside a patch before a matching (also ending below their starting scale, with an inversion method configured); LO/NLO (thorough: NNLO), iterate-exact with 30-60 iterations (quick tier: 40); grids of 15 (quick: 10) and 25-30 "
+    "inside a patch before a matching (also ending below their starting scale, with an inversion method configured) and their mirror images (up to the matching scale with nf+1, inverse matching, down again); LO/NLO (thorough: NNLO), iterate-exact with 30-60 iterations (quick tier: 40); grids of 15 (quick: 10) and 25-30 "
     "points on [1e-2, 1], degree 3-4; smooth toy PDFs. Three solves per grid; the split result E2(E1 f) and the direct "
     "result E f must agree at every grid point within 1e-3 of the largest flavour at that x (plus 1e-3 of the largest "
     "value overall times 1e-3 as absolute floor) on the fine grid, and the discrepancy on the fine grid must be smaller "
-    "than on the coarse grid (unless both are below 1e-6). Six sevenths of the cases are cheap 'coarse-only' cases (12-point grid, LO/NLO) that cover the path shapes broadly and only assert that split and direct results agree within 6e-2 (5x the largest discrepancy measured on correct code), i.e. they detect plumbing-size errors. Non-trivial = both legs change a_s by more than 5%; distinct "
+    "than on the coarse grid (unless both are below 1e-6). Six sevenths of the cases are cheap 'coarse-only' cases (12-point grid, LO/NLO) that cover the path shapes broadly and only assert that split and direct results agree within 3e-2 at the grid points with x <= 0.4 (5x the largest discrepancy measured there on correct code), i.e. they detect plumbing-size errors. Non-trivial = both legs change a_s by more than 5%; distinct "
     "by (order, path shape, nf0, directions of the legs)."
 )
 ASSUMPTIONS = [
@@ -35,12 +35,12 @@ LEVEL_TEXT = (
 )
 
 
-COARSE_TOL = 6e-2  # 12-point grid: measured discrepancy of correct code <= 1.3e-2 (interpolation error of composed operators)
+COARSE_TOL = 3e-2  # 12-point grid, x <= 0.4: measured discrepancy of correct code <= 6e-3 (interpolation error of composed operators)
 
 
 def budget(tier):
     if tier == "quick":
-        return dict(max_examples=14, shards=7, wall_s=240, shrink_s=0)
+        return dict(max_examples=28, shards=14, wall_s=240, shrink_s=0)
     return dict(max_examples=120, shards=8, wall_s=3000, shrink_s=0)
 
 
@@ -52,7 +52,9 @@ def strategy(tier):
         quick = tier == "quick"
         order = draw(st.sampled_from((1, 1, 2) if quick else (1, 2, 2, 3)))
         masses = [1.51, 4.92, 172.5]
-        kind = draw(st.sampled_from(("inside", "cross-after", "cross-before", "down-then-match", "down-match-up-short", "backward")))
+        # the non-monotonic shapes (scale and flavour number move in opposite directions on a leg) are drawn twice as often
+        kind = draw(st.sampled_from(("inside", "cross-after", "cross-before", "down-then-match", "down-match-up-short",
+                                     "down-match-up-short", "up-match-down-short", "up-match-down-short", "backward")))
         nf0 = draw(st.sampled_from((3, 4)))
         r = draw(st.sampled_from((1.0, 1.0, 0.7, 1.5)))  # matching ratio of the wall that may be crossed
         ratios = [1.0, 1.0, 1.0]
@@ -93,13 +95,23 @@ def strategy(tier):
             mu1 = w * (1 + (f1 - 1) * draw(st.floats(0.3, 0.8)))
             mu2 = w * f1 * f2
             pts = [[mu0, nf0], [mu1, nf0 + 1], [mu2, nf0 + 1]]
+        elif kind == "up-match-down-short":  # mirrored: up to the wall with nf0+1, inverse matching, down but ending above its start
+            # kept inside the nf0 patch and to a moderate total range: a long backward evolution amplifies the
+            # interpolation error at large x beyond the accuracy the property is stated for (measured 2e-2 on 25 points
+            # for 4.9 -> 0.9 GeV, falling to 4e-3 on 40 points)
+            floor = 1.6 if nf0 == 4 else 0.0
+            mu0 = max(w / min(f1, 2.0), 1.4 * floor)
+            mu1 = w / (1 + (w / mu0 - 1) * draw(st.floats(0.3, 0.8)))
+            mu2 = max(mu0 / min(f2, 1.5), floor)
+            pts = [[mu0, nf0 + 1], [mu1, nf0], [mu2, nf0]]
+            inv = "exact"
         else:  # backward across the wall: nf0+1 -> nf0
             mu0 = w * f1 * 1.3
             mu1 = w * draw(st.floats(1.1, 1.25))
             mu2 = w / f2
             pts = [[mu0, nf0 + 1], [mu1, nf0 + 1], [mu2, nf0]]
             inv = "exact"
-        if inv is None and draw(st.booleans()):
+        if inv is None and (kind == "down-match-up-short" or draw(st.booleans())):
             inv = draw(st.sampled_from(("exact", "expanded")))  # irrelevant without a downward matching, but valid
         pts = [[float(m), int(n)] for m, n in pts]
         mu_low = min(p[0] for p in pts + [[w, 0]] if p[0] > 0)
@@ -124,20 +136,26 @@ def strategy(tier):
                 "val": [draw(st.floats(0.05, 0.5)), draw(st.floats(0.5, 1.0)), draw(st.floats(3.0, 5.0)), draw(st.floats(0.0, 3.0))],
             }
         fine = draw(st.integers(25, 26 if quick else 30))
-        return {"kind": kind, "points": pts, "card": card, "pdf": pdf, "grids": [10 if quick else 15, fine]}
+        return {"kind": kind, "points": pts, "card": card, "pdf": pdf, "grids": [10 if quick else 15, fine], "bump": draw(st.booleans())}
 
     def coarsen(case):
         case = dict(case)
         case["grids"] = [12]
         case["coarse_only"] = True
         card = dict(case["card"])
-        card["order"] = [min(card["order"][0], 2), 0]
+        card["order"] = [2 if case["bump"] else min(card["order"][0], 2), 0]  # mostly NLO: the LO matching is trivial
         card["iters"] = 20 if card["order"][0] > 1 else 1
         case["card"] = card
         return case
 
     # cheap coarse-grid cases cover the path shapes broadly; few full cases carry the stated accuracy claim
-    return st.integers(0, 6).flatmap(lambda i: build() if i == 0 else build().map(coarsen))
+    # (the mirrored shape ends with a backward evolution, whose large-x error on 25 points exceeds the stated 1e-3 on
+    # correct code - measured 4e-3, shrinking under refinement -, so it is only used with the coarse oracle)
+    def pick(t):
+        i, case = t
+        return case if i == 0 and case["kind"] != "up-match-down-short" else coarsen(case)
+
+    return st.tuples(st.integers(0, 6), build()).map(pick)
 
 
 def evolve(card, p_from, p_to, xs, f):
@@ -188,7 +206,10 @@ def check_case(case):
             scale = np.max(np.abs(fd), axis=0)  # largest flavour at each x
             floor = 1e-3 * float(np.max(scale))
             rel = np.max(np.abs(f2 - fd), axis=0) / (scale + floor)
-            disc.append((len(xs), float(np.max(rel[:-1])), int(np.argmax(rel[:-1]))))
+            # coarse-only cases look at x <= 0.4: on 12 points the last interior nodes carry an interpolation error of
+            # several percent on correct code (backward legs), while a plumbing error shows at every x
+            last = int(np.searchsorted(xs, 0.4, side="right")) if case.get("coarse_only") else len(xs) - 1
+            disc.append((len(xs), float(np.max(rel[:last])), int(np.argmax(rel[:last]))))
     except (NotImplementedError, ValueError, ru.SolveRefused) as e:
         return CaseResult(discarded=f"refused:{type(e).__name__}")
     except ru.SolveCrashed as e:  # crashes are C04's verdict
